@@ -1166,8 +1166,13 @@ def gen_scanner(src):
     from rs2lean_scanner import gen_scanner as g
     return g(src)
 
+def gen_serde(src):
+    # the serde derives of src/ast.rs / src/operator.rs and `impl Serialize for Value`: tools/rs2lean_serde.py
+    from rs2lean_serde import gen_serde as g
+    return g(src)
+
 TARGETS = (('SrcInterp', gen_interp), ('SrcValidate', gen_validate), ('SrcOptimizer', gen_optimizer), ('SrcEnv', gen_env), ('SrcOrder', gen_order),
-           ('SrcParser', gen_parser), ('SrcStdlib', gen_stdlib), ('SrcScanner', gen_scanner))
+           ('SrcParser', gen_parser), ('SrcStdlib', gen_stdlib), ('SrcScanner', gen_scanner), ('SrcSerde', gen_serde))
 
 def main():
     a = sys.argv[1:]
